@@ -286,7 +286,15 @@ impl<'tcx> Ex<'tcx> {
                 ]));
             }
             let (file, line) = if local { self.loc(tcx.def_span(did)) } else { (String::new(), 0) };
+            let tparams: Vec<String> = tcx
+                .generics_of(did)
+                .own_params
+                .iter()
+                .filter(|p| matches!(p.kind, ty::GenericParamDefKind::Type { .. }))
+                .map(|p| jstr(p.name.as_str()))
+                .collect();
             self.adts.push(jobj(&[
+                ("tparams", jlist(&tparams)),
                 ("path", jstr(&self.path(did))),
                 ("kind", jstr(kind)),
                 ("local", (local as u8).to_string()),
